@@ -128,10 +128,17 @@ def parse_trace_output(out):
 
 # --------------------------------------------------------------------------- traces
 
+_SLICE_CACHE = {}
+
+
 def episode_slice(trace_path, l):
     """Events of the episode containing event l (1-based), up to and including l."""
-    with open(trace_path) as f:
-        lines = f.read().split("\n")
+    lines = _SLICE_CACHE.get(trace_path)
+    if lines is None:
+        with open(trace_path) as f:
+            lines = f.read().split("\n")
+        _SLICE_CACHE.clear()          # one trace at a time: violations are processed trace by trace
+        _SLICE_CACHE[trace_path] = lines
     start = l
     while start > 1 and not lines[start - 1].startswith('{"ev":"ep"'):
         start -= 1
